@@ -178,11 +178,14 @@ def run(ctx):
         ctx.count('corpus')
 
     # ---- K(b) + S ---------------------------------------------------------------------------------------------
+    jobs = extreme_jobs(ctx)
     if info is not None:
         k_ops(st)
+        k_extreme(st, jobs)
         k_admt(st)
         k_coef(st)
     s_ops(st)
+    s_extreme(st, jobs)
     s_admt(st)
     s_refine(st)
 
@@ -388,6 +391,200 @@ def k_coef(st):
             ctx.disagreements += 1
             ctx.broke('correspondence', 'C20 stream coef', dict(anisotropy=aniso, R=R, d=d, psi=psi, model=val,
                                                                implementation=float(L[0, 0]) if status == 'ok' else status))
+
+
+# ------------------------------------------------------------------------------ size / scale extreme grids (K and S)
+def extreme_jobs(ctx):
+    """tall and wide grids (the y differences of a column-major grid are -dy inside a column and +(n_y-1)dy between
+    columns: anything that compares differences with each other only shows on long columns), very different dx/dy,
+    huge origin with tiny cells.  Returns (kind, nx, ny, order, dx, dy, x0, y0)."""
+    rng = ctx.rng
+    jobs = []
+    longs = (64, 101, 128, 257)
+    for n_long in longs:
+        for n_short in (2, 3):
+            for transposed in (False, True):
+                nx, ny = (n_long, n_short) if transposed else (n_short, n_long)
+                orders = ['col']
+                if ctx.tier == 'thorough' or (n_long + n_short + transposed) % 2 == 0:
+                    orders += ['row']
+                if ctx.tier == 'thorough' or (n_long + n_short + transposed) % 4 == 1:
+                    orders += ['shuffle']
+                for order in orders:
+                    k = rng.random()
+                    if k < 0.35:
+                        dx, dy = rng.choice([1.0, 0.5, 0.25, 2.0]), rng.choice([1.0, 0.5, 0.125, 4.0])
+                        x0, y0 = float(rng.randint(-4, 4)), float(rng.randint(-4, 4))
+                    else:
+                        dx, dy = rnd_step(rng), rnd_step(rng)
+                        x0, y0 = rnd_origin(rng, dx), rnd_origin(rng, dy)
+                    jobs.append(('tall' if not transposed else 'wide', nx, ny, order, dx, dy, x0, y0))
+    # step ratios 1e-3 .. 1e3 on small and on long grids
+    for ratio in (1e-3, 1e-2, 1e2, 1e3, 2.0 ** -10, 2.0 ** 10):
+        for nx, ny in ((3, 4), (2, 101), (101, 2), (5, 5)):
+            dy = rng.choice([1.0, 0.5, rng.uniform(0.1, 2)])
+            jobs.append(('ratio', nx, ny, 'col', dy * ratio, dy, rnd_origin(rng, dy * ratio), rnd_origin(rng, dy)))
+    # large coordinates with tiny cells: dyadic (exact double arithmetic) and decimal (centres carry rounding noise of
+    # ~1e-4 of a cell: the extracted steps are then only that accurate, which the oracle's tolerance accounts for)
+    for nx, ny in ((3, 3), (4, 7), (2, 130), (130, 3)):
+        jobs.append(('far-dyadic', nx, ny, 'col', 2.0 ** -20, 2.0 ** -19, 2.0 ** 20, -2.0 ** 20))
+        jobs.append(('far-decimal', nx, ny, 'col', 1e-6, 3e-6, 1e6, -1e6))
+        jobs.append(('tiny', nx, ny, 'col', 1e-6 * rng.uniform(1, 2), 1e-6, 0.0, 0.0))
+        jobs.append(('huge', nx, ny, 'col', 1e6, 1e6 * rng.uniform(1, 2), 1e6, 1e6))
+    return jobs
+
+
+def ordered_cells(rng, nx, ny, order):
+    cells = full_cells(nx, ny, 'row' if order == 'row' else 'col')
+    if order == 'shuffle':
+        rng.shuffle(cells)
+    return cells
+
+
+def sample_rows(rng, cells, nx, ny, k=24):
+    """indices of one cell per boundary class plus random ones"""
+    want = {}
+    for i, (ix, iy) in enumerate(cells):
+        want.setdefault(cell_class(nx, ny, ix, iy), i)
+    rows = list(want.values()) + [rng.randrange(len(cells)) for _ in range(k)]
+    return sorted(set(rows))
+
+
+def k_extreme(st, jobs):
+    """model vs implementation on the extreme grids: extracted dx, dy (tight) and sampled operator rows (sparse)"""
+    ctx, rng = st.ctx, st.ctx.rng
+    lines, obs = [], []
+    for kind, nx, ny, order, dx, dy, x0, y0 in jobs:
+        cells = ordered_cells(rng, nx, ny, order)
+        v, m12, m21, (status, ops) = gen(st, cells, dx, dy, x0, y0)
+        rows = sample_rows(rng, cells, nx, ny)
+        lines.append('rows %d %s 4 %s %d %s' % (len(cells), ' '.join('%d %d' % c for c in cells), fs(v.reshape(-1)),
+                                               len(rows), ' '.join(str(i) for i in rows)))
+        impl = None
+        if status == 'ok':
+            # the implementation's extracted steps are not returned: recover them from the interior-independent entries
+            impl = {name: np.asarray(ops[name])[rows] for name in OPS}
+        obs.append((kind, nx, ny, order, dx, dy, x0, y0, cells, rows, status, impl))
+        del ops
+    outs = ctx.driver(lines)
+    for (kind, nx, ny, order, dx, dy, x0, y0, cells, rows, status, impl), o in zip(obs, outs):
+        ctx.traces += 1
+        ctx.count('K-extreme:%s:%s' % (kind, order))
+        desc = dict(stream='extreme', kind=kind, nx=nx, ny=ny, order=order, dx=dx, dy=dy, x0=x0, y0=y0)
+        t = o.split()
+        agree = True
+        if status != 'ok':
+            agree = t[0] == status
+        elif t[0] != 'ok':
+            agree = False
+        else:
+            mdx, mdy = b2f(t[1]), b2f(t[2])
+            desc['model_steps'] = [mdx, mdy]
+            body = t[3:]
+            n = len(cells)
+            agree = len(body) == len(rows) * 5 * 9 * 2
+            pos = 0
+            for r, i in enumerate(rows):
+                if not agree:
+                    break
+                for name in OPS:
+                    ref = impl[name][r]
+                    row = np.zeros(n)
+                    for _ in range(9):
+                        col, val = int(body[pos]), b2f(body[pos + 1])
+                        pos += 2
+                        if col >= 0:
+                            row[col] += val
+                        elif val != 0.0:
+                            agree = False
+                    scale = np.abs(ref).max()
+                    if not (np.all(np.abs(row - ref) <= 1e-12 * scale) and np.array_equal(row == 0, ref == 0)):
+                        agree = False
+                        j = int(np.argmax(np.abs(row - ref)))
+                        desc['first_difference'] = dict(op=name, row=int(i), cell=list(cells[i]), col=j,
+                                                        model=float(row[j]), impl=float(ref[j]))
+                        break
+                    ctx.case(key=('K-extreme', kind, nx, ny, order, cell_class(nx, ny, *cells[i]), name))
+            # extracted steps: the off-diagonal entry of Dx / Dy in a row fixes the implementation's dx, dy
+            if agree:
+                for name, m in (('Dx', mdx), ('Dy', mdy)):
+                    nz = np.abs(impl[name][0][impl[name][0] != 0])
+                    c = 1.0 if cell_class(nx, ny, *cells[rows[0]])[0 if name == 'Dx' else 1] != '-' else 0.5
+                    if nz.size == 0 or not close(c / nz.max(), m, 1e-12):
+                        agree = False
+                        desc['first_difference'] = dict(what='extracted ' + name[1:], model=m,
+                                                        impl=(c / nz.max()) if nz.size else None)
+        if not agree:
+            ctx.disagreements += 1
+            desc['model'] = o[:120]
+            desc['implementation'] = status
+            ctx.broke('correspondence', 'C20 stream extreme/%s/%s' % (kind, order), desc)
+            check_extreme_case(st, kind, nx, ny, 'col' if order == 'shuffle' else order, dx, dy, x0, y0, 'K-seed')
+
+
+def check_extreme_case(st, kind, nx, ny, order, dx, dy, x0, y0, stream):
+    """direct oracles on one large / badly scaled grid.  The test polynomial is written in the local coordinates
+    (u, v) = (ix dx, -iy dy) of the grid (a polynomial of the same degree in (x, y), whatever the origin), so no
+    cancellation enters through the field; what remains is how well doubles represent the grid itself:
+    rel. accuracy of a step ~ ulp(|coordinate|) / step."""
+    ctx, rng = st.ctx, st.ctx.rng
+    cells = full_cells(nx, ny, 'row' if order == 'row' else 'col')
+    v, m12, m21, (status, ops) = gen(st, cells, dx, dy, x0, y0)
+    rep = dict(stream=stream, extreme=kind, nx=nx, ny=ny, order=order, dx=dx, dy=dy, x0=x0, y0=y0)
+    if status != 'ok':
+        ctx.fail('C20:generate_derivative_operators:raises:' + status, 'full %dx%d grid (%s) raised %s' % (nx, ny, kind, status), rep)
+        return
+    ix = np.array([c[0] for c in cells], dtype=float)
+    iy = np.array([c[1] for c in cells], dtype=float)
+    u, w = ix * dx, -iy * dy
+    a = [rng.uniform(0.5, 2) * rng.choice([-1, 1]) for _ in range(6)]
+    a = [a[0], a[1] / (nx * dx), a[2] / (ny * dy), a[3] / (nx * dx) ** 2, a[4] / (nx * dx * ny * dy), a[5] / (ny * dy) ** 2]
+    lin = a[0] + a[1] * u + a[2] * w
+    bil = lin + a[4] * u * w
+    quad = bil + a[3] * u * u + a[5] * w * w
+    xmax = max(abs(x0), abs(x0 + nx * dx))
+    ymax = max(abs(y0), abs(y0 - ny * dy))
+    grid_rel = 8 * 2.3e-16 * max(xmax / dx, ymax / dy, 1.0)       # representation of the grid in doubles
+    den = dict(Dx=dx, Dy=dy, Dxx=dx * dx, Dxy=dx * dy, Dyy=dy * dy)
+    size = dict(Dx=nx, Dy=ny, Dxx=nx * nx, Dxy=nx * ny, Dyy=ny * ny)
+    for name in OPS:
+        M = np.asarray(ops[name])
+        # natural magnitude of this derivative for the scaled polynomial, and the rounding floor of a difference quotient
+        nat = 4.0 / den[name] / size[name]
+        floor = 64 * 2.3e-16 * 8.0 / den[name] + grid_rel * 8.0 * nat * size[name] ** 0.5 + 1e-300
+        rs = M @ np.ones(len(cells))
+        gl, gb, gq = M @ lin, M @ bil, M @ quad
+        exp_lin = dict(Dx=a[1], Dy=a[2], Dxx=0.0, Dxy=0.0, Dyy=0.0)[name]
+        exp_bil = dict(Dx=a[1] + a[4] * w, Dy=a[2] + a[4] * u, Dxx=0 * u, Dxy=a[4] + 0 * u, Dyy=0 * u)[name]
+        exp_quad = dict(Dx=a[1] + 2 * a[3] * u + a[4] * w, Dy=a[2] + a[4] * u + 2 * a[5] * w,
+                        Dxx=2 * a[3] + 0 * u, Dxy=a[4] + 0 * u, Dyy=2 * a[5] + 0 * u)[name]
+        cls = np.array([cell_class(nx, ny, c[0], c[1]) for c in cells])
+        interior = cls == '--'
+        rowabs = np.abs(M).sum(axis=1)
+        bad = np.abs(rs) > 64 * 2.3e-16 * rowabs + 1e-300
+        checks = [('constant-not-annihilated', bad, rs, 0 * u)]
+        if name in ('Dx', 'Dy'):
+            checks.append(('linear-not-exact', np.abs(gl - exp_lin) > floor + grid_rel * abs(exp_lin), gl, exp_lin + 0 * u))
+        if name == 'Dxy':
+            checks.append(('bilinear-not-exact', np.abs(gb - exp_bil) > floor + grid_rel * np.abs(exp_bil), gb, exp_bil))
+        checks.append(('quadratic-not-exact', interior & (np.abs(gq - exp_quad) > floor + grid_rel * np.abs(exp_quad)), gq, exp_quad))
+        for what, mask, got, want in checks:
+            ctx.case(key=('S-extreme', kind, nx, ny, order, name, what))
+            if mask.any():
+                i = int(np.argmax(mask))
+                tag = 'interior' if what.startswith('quadratic') else cls[i]
+                ctx.fail('C20:%s:%s:%s' % (name, what, tag),
+                         '%s on a %dx%d %s grid (%s order, dx=%g dy=%g origin (%g,%g)): cell %r gives %r, exact %r'
+                         % (name, nx, ny, kind, order, dx, dy, x0, y0, cells[i], float(got[i]), float(want[i])),
+                         dict(rep, cell=list(cells[i]), cls=str(cls[i]), op=name, coefficients=a))
+    ctx.count('S-extreme:%s:%s' % (kind, order))
+
+
+def s_extreme(st, jobs):
+    for kind, nx, ny, order, dx, dy, x0, y0 in jobs:
+        if order == 'shuffle':
+            continue                    # a shuffled order is outside the documented layouts (K only)
+        check_extreme_case(st, kind, nx, ny, order, dx, dy, x0, y0, 'S-extreme')
 
 
 # ---------------------------------------------------------------------------------------------- S: operators
@@ -637,8 +834,10 @@ def s_refine(st):
 # ------------------------------------------------------------------------------------------------- replay
 def replay_case(st, r):
     r = r.get('replay', r)
-    if r.get('stream') in ('ops', 'S', 'K-seed') and 'cells' in r:
+    if 'extreme' not in r and r.get('stream') in ('ops', 'S', 'K-seed') and 'cells' in r:
         check_ops_case(st, [tuple(c) for c in r['cells']], r['dx'], r['dy'], r['x0'], r['y0'], r['nx'], r['ny'], 'replay')
+    elif 'extreme' in r:
+        check_extreme_case(st, r['extreme'], r['nx'], r['ny'], r.get('order', 'col'), r['dx'], r['dy'], r['x0'], r['y0'], 'replay')
     elif 'psi' in r and 'anisotropy' in r and 'nx' in r:
         check_admt_case(st, r['nx'], r['ny'], r['dx'], r['dy'], r['x0'], r['y0'], r['anisotropy'], r['psi'], 'replay', r.get('psi_kind', 'given'))
 
